@@ -204,8 +204,11 @@ func TestVerifC15Stack(t *testing.T) {
 		}
 		specs := [][]srvSpec{
 			{{"g1_dns", agd.ProtoDNS, 53}, {"g1_dot", agd.ProtoDoT, 853}, {"g1_doh", agd.ProtoDoH, 443}, {"g1_doq", agd.ProtoDoQ, 8853},
-				{"g1_dnscrypt", agd.ProtoDNSCrypt, 5443}},
-			{{"g2_doh", agd.ProtoDoH, 1443}, {"g2_dns", agd.ProtoDNS, 1053}, {"g2_dot", agd.ProtoDoT, 1853}},
+				{"g1_dnscrypt", agd.ProtoDNSCrypt, 5443},
+				// a second server of a protocol the group already has, with other settings
+				{"g1_dns_nolinked", agd.ProtoDNS, 5353}},
+			{{"g2_doh", agd.ProtoDoH, 1443}, {"g2_dns", agd.ProtoDNS, 1053}, {"g2_dot", agd.ProtoDoT, 1853},
+				{"g2_dns_plain", agd.ProtoDNS, 2053}},
 		}
 		var groups []*agd.ServerGroup
 		fltGrps := map[agd.FilteringGroupID]*agd.FilteringGroup{}
@@ -218,7 +221,7 @@ func TestVerifC15Stack(t *testing.T) {
 				Name: agd.ServerGroupName(fmt.Sprintf("grp%d", gi+1)), FilteringGroup: fgID, ProfilesEnabled: true}
 			for _, s := range ss {
 				srv := &agd.Server{Name: agd.ServerName(s.name), Protocol: s.proto, ReadTimeout: 5 * time.Second,
-					WriteTimeout: 5 * time.Second, LinkedIPEnabled: s.proto == agd.ProtoDNS || s.proto == agd.ProtoDNSCrypt}
+					WriteTimeout: 5 * time.Second, LinkedIPEnabled: (s.proto == agd.ProtoDNS || s.proto == agd.ProtoDNSCrypt) && s.name != "g1_dns_nolinked"}
 				if s.name == "g2_dns" {
 					// bound to an interface prefix: clients are recognised by the dedicated address they sent to
 					srv.SetBindData([]*agd.ServerBindData{{ListenConfig: &agdtest.ListenConfig{}, PrefixAddr: &agdnet.PrefixNetAddr{
@@ -377,9 +380,13 @@ func c15SAddrs(rng *rand.Rand, j *c15SJob, srv *agd.Server, whoP **c15SProf, cip
 	switch tg.s.Protocol {
 	case agd.ProtoDNS, agd.ProtoDNSCrypt:
 		// (DNSCrypt clients are never recognised: no device ID, and linked addresses are a plain-DNS thing)
-		if who != nil && who.linked.IsValid() && tg.s.Protocol == agd.ProtoDNS {
+		// a linked address counts only at a plain-DNS server that has linked addresses enabled
+		switch {
+		case who != nil && who.linked.IsValid() && tg.s.Protocol == agd.ProtoDNS && tg.s.LinkedIPEnabled:
 			cip, via = who.linked, "linked-ip"
-		} else {
+		case who != nil && who.linked.IsValid():
+			cip, via, who = who.linked, "linked-ip-not-enabled-here", nil
+		default:
 			who = nil
 		}
 		j.ra, j.la = &net.UDPAddr{IP: cip.AsSlice(), Port: 1024 + rng.Intn(60000)}, net.UDPAddrFromAddrPort(laddr)
